@@ -320,6 +320,62 @@ theorem runWorker_shape (code : SwarmCode ω) (adv : SwarmAdv σ W ω η ι τ) 
       · obtain ⟨pre, h1, h2⟩ := this
         exact ⟨.ok o :: pre, by rw [h1]; rfl, noMarker_cons code o _ hm h2⟩
 
+/-- the outputs of the steps that returned -/
+def outs (steps : List (Out ω)) : List ω := steps.filterMap Out.toOption
+
+/-- the last three elements (all of them when there are fewer) -/
+def lastThree (l : List ω) : List ω := l.drop (l.length - 3)
+
+theorem window_lastThree (l : List ω) (o : ω) : window (lastThree l) o = lastThree (l ++ [o]) := by
+  unfold window lastThree
+  by_cases h : l.length ≤ 2
+  · have e1 : l.length - 3 = 0 := by omega
+    have e2 : (l ++ [o]).length - 3 = 0 := by simp; omega
+    rw [e1, e2]
+    simp only [List.drop_zero]
+    have : ¬ (l ++ [o]).length > 3 := by simp; omega
+    rw [if_neg this]
+  · have hl : (List.drop (l.length - 3) l ++ [o]).length > 3 := by simp; omega
+    simp only [hl, if_true]
+    have e2 : (l ++ [o]).length - 3 = (l.length - 3) + 1 := by simp; omega
+    rw [e2, ← List.drop_drop]
+    congr 1
+    rw [List.drop_append_of_le_length (by omega)]
+
+/-- A worker run that gives up (returns `None`) *before* the step limit does so because the entropy test
+    fired on the window of the last three outputs. -/
+theorem runWorker_early (code : SwarmCode ω) (adv : SwarmAdv σ W ω η ι τ) (w : W) (task : τ) :
+    ∀ n prev s, (runWorker code adv w task n (lastThree prev) s).res = .ok none →
+      (runWorker code adv w task n (lastThree prev) s).steps.length < n →
+      (prev ++ outs (runWorker code adv w task n (lastThree prev) s).steps).length ≥ 3 ∧
+      code.low (code.distinct (lastThree (prev ++ outs (runWorker code adv w task n (lastThree prev) s).steps)))
+        (lastThree (prev ++ outs (runWorker code adv w task n (lastThree prev) s).steps)).length = true := by
+  intro n
+  induction n with
+  | zero => intro prev s _ h; simp [runWorker] at h
+  | succ n ih =>
+    intro prev s
+    rcases runWorker_succ code adv w task n (lastThree prev) s with
+      ⟨_, h⟩ | ⟨_, o, hm, h⟩ | ⟨_, o, hm, ⟨hl, hlow⟩, h⟩ | ⟨s1, o, hm, h⟩ <;> rw [h]
+    · intro hr; cases hr
+    · intro hr; cases hr
+    · intro _ _
+      rw [window_lastThree] at hl hlow
+      have : outs [Out.ok o] = [o] := rfl
+      rw [this]
+      refine ⟨?_, hlow⟩
+      have : (lastThree (prev ++ [o])).length ≤ (prev ++ [o]).length := by unfold lastThree; simp
+      omega
+    · intro hr hlen
+      rw [window_lastThree] at hr hlen ⊢
+      simp only [List.length_cons] at hlen
+      have := ih (prev ++ [o]) s1 hr (by omega)
+      have e : prev ++ outs (Out.ok o :: (runWorker code adv w task n (lastThree (prev ++ [o])) s1).steps) =
+          (prev ++ [o]) ++ outs (runWorker code adv w task n (lastThree (prev ++ [o])) s1).steps := by
+        simp [outs, Out.toOption]
+      rw [e]
+      exact this
+
 /-- Facts about one spawn record that hold however the spawn ended. -/
 structure SpawnFacts (code : SwarmCode ω) (cfg : SwarmCfg) (sp : Spawn W ω η) : Prop where
   steps_le : sp.steps.length ≤ cfg.maxSteps.toNat
@@ -328,6 +384,9 @@ structure SpawnFacts (code : SwarmCode ω) (cfg : SwarmCfg) (sp : Spawn W ω η)
     (∃ pre, sp.steps = pre ++ [.raise] ∧ NoMarker code pre)
   no_worker : sp.worker = .raise → sp.steps = [] ∧ sp.summ = none
   summ_failed : sp.summ.isSome = true → NoMarker code sp.steps
+  early : sp.summ.isSome = true → sp.steps.length < cfg.maxSteps.toNat →
+    (outs sp.steps).length ≥ 3 ∧
+    code.low (code.distinct (lastThree (outs sp.steps))) (lastThree (outs sp.steps)).length = true
 
 /-- What a terminal spawn (the one after which `supervise` returns or raises) looks like. -/
 def TermFacts (code : SwarmCode ω) (adv : SwarmAdv σ W ω η ι τ) (total : Nat) (sp : Spawn W ω η) :
@@ -364,7 +423,7 @@ theorem superviseLoop_succ (code : SwarmCode ω) (cfg : SwarmCfg) (adv : SwarmAd
     split at hr
     · -- factory raised
       refine Or.inl ⟨hg, _, _, _, hr.symm, rfl, rfl, ?_, Or.inl rfl⟩
-      exact ⟨by simp, Or.inl (noMarker_nil code), fun _ => ⟨rfl, rfl⟩, fun _ => noMarker_nil code⟩
+      exact ⟨by simp, Or.inl (noMarker_nil code), fun _ => ⟨rfl, rfl⟩, fun _ => noMarker_nil code, (fun h => by simp at h)⟩
     · rename_i s1 w _
       have hle := runWorker_steps_le code adv w task cfg.maxSteps.toNat [] s1
       have hsh := runWorker_shape code adv w task cfg.maxSteps.toNat [] s1
@@ -375,23 +434,27 @@ theorem superviseLoop_succ (code : SwarmCode ω) (cfg : SwarmCfg) (adv : SwarmAd
         simp only at hle hsh
         obtain ⟨pre, h1, h2⟩ := hsh
         refine Or.inl ⟨hg, _, _, _, hr.symm, rfl, rfl, ?_, Or.inr (Or.inr ⟨pre, h1⟩)⟩
-        exact ⟨hle, Or.inr (Or.inr ⟨pre, h1, h2⟩), (fun h => by cases h), (fun h => by simp at h)⟩
+        exact ⟨hle, Or.inr (Or.inr ⟨pre, h1, h2⟩), (fun h => by cases h), (fun h => by simp at h), (fun h => by simp at h)⟩
       · -- marker output
         rename_i s2 o steps hw
         rw [hw] at hle hsh
         simp only at hle hsh
         obtain ⟨pre, h1, h2, h3⟩ := hsh
         refine Or.inl ⟨hg, _, _, _, hr.symm, rfl, rfl, ?_, rfl, rfl, rfl, w, o, pre, rfl, h1, h2, h3, rfl, rfl⟩
-        exact ⟨hle, Or.inr (Or.inl ⟨pre, o, h1, h2, h3⟩), (fun h => by cases h), (fun h => by simp at h)⟩
+        exact ⟨hle, Or.inr (Or.inl ⟨pre, o, h1, h2, h3⟩), (fun h => by cases h), (fun h => by simp at h), (fun h => by simp at h)⟩
       · -- worker gave up: apoptosis
         rename_i s2 steps hw
+        have hearly := runWorker_early code adv w task cfg.maxSteps.toNat [] s1
+        have hl0 : lastThree ([] : List ω) = [] := rfl
+        rw [hl0, hw] at hearly
+        simp only [List.nil_append] at hearly
         rw [hw] at hle hsh
         simp only at hle hsh
         split at hr
         · refine Or.inl ⟨hg, _, _, _, hr.symm, rfl, rfl, ?_, Or.inr (Or.inl rfl)⟩
-          exact ⟨hle, Or.inl hsh, (fun h => by cases h), (fun _ => hsh)⟩
+          exact ⟨hle, Or.inl hsh, (fun h => by cases h), (fun _ => hsh), (fun _ hlt => hearly trivial hlt)⟩
         · refine Or.inr ⟨hg, _, _, w, _, _, hr.symm, rfl, rfl, ?_, rfl, rfl, hsh, rfl, rfl, rfl⟩
-          exact ⟨hle, Or.inl hsh, (fun h => by cases h), (fun _ => hsh)⟩
+          exact ⟨hle, Or.inl hsh, (fun h => by cases h), (fun _ => hsh), (fun _ hlt => hearly trivial hlt)⟩
   · rename_i hg
     exact Or.inl ⟨hg, hr.symm⟩
 
@@ -813,6 +876,84 @@ theorem toolLoop_fuel (cfg : ToolCfg) (adv : ToolAdv σ ρ κ θ) :
       rw [h2]; simp
     · simp
     · exact ih (k + 1) _ _ (by omega)
+
+/-- Prompt threading over the event log.  `cur` is what the next provider call must be shown: the first call
+    sees the caller's prompt (`none`); after a `complete_with_tools` call the results of the tool executions
+    that follow are collected from scratch (`some []`, then appended in order) and the next provider call —
+    another round or the final completion — is shown exactly those; a raising execution or a plain completion
+    ends the log. -/
+def Thr : PromptView θ → List (TEv ρ κ θ) → Prop
+  | _, [] => True
+  | cur, .tools p _ :: rest => p = cur ∧ Thr (some []) rest
+  | cur, .exec _ (.ok r) :: rest => Thr (cur.map (· ++ [r])) rest
+  | _, .exec _ .raise :: rest => rest = []
+  | cur, .complete p _ :: rest => p = cur ∧ rest = []
+
+theorem execAll_cons (adv : ToolAdv σ ρ κ θ) (c : κ) (cs : List κ) (s : σ) :
+    (∃ s1, execAll adv (c :: cs) s = (s1, .raise, [.exec c .raise])) ∨
+    (∃ s1 r, (execAll adv cs s1).2.1 = .raise ∧
+      execAll adv (c :: cs) s = ((execAll adv cs s1).1, .raise, .exec c (.ok r) :: (execAll adv cs s1).2.2)) ∨
+    (∃ s1 r rs, (execAll adv cs s1).2.1 = .ok rs ∧
+      execAll adv (c :: cs) s = ((execAll adv cs s1).1, .ok (r :: rs), .exec c (.ok r) :: (execAll adv cs s1).2.2)) := by
+  generalize hr : execAll adv (c :: cs) s = run
+  unfold execAll at hr
+  split at hr
+  · exact Or.inl ⟨_, hr.symm⟩
+  · rename_i s1 r _
+    split at hr <;> rename_i hx
+    · exact Or.inr (Or.inl ⟨s1, r, by rw [hx], by rw [hx]; exact hr.symm⟩)
+    · exact Or.inr (Or.inr ⟨s1, r, _, by rw [hx], by rw [hx]; exact hr.symm⟩)
+
+theorem execAll_thr (adv : ToolAdv σ ρ κ θ) :
+    ∀ cs s acc (rest : List (TEv ρ κ θ)),
+      ((execAll adv cs s).2.1 = .raise → Thr (some acc) (execAll adv cs s).2.2) ∧
+      (∀ rs, (execAll adv cs s).2.1 = .ok rs → Thr (some (acc ++ rs)) rest →
+        Thr (some acc) ((execAll adv cs s).2.2 ++ rest)) := by
+  intro cs
+  induction cs with
+  | nil => intro s acc rest; simp [execAll]
+  | cons c cs ih =>
+    intro s acc rest
+    rcases execAll_cons adv c cs s with ⟨s1, h⟩ | ⟨s1, r, hx, h⟩ | ⟨s1, r, rs, hx, h⟩ <;> rw [h]
+    · simp [Thr]
+    · refine ⟨fun _ => ?_, (by intro rs h0; cases h0)⟩
+      simp only [Thr, Option.map_some]
+      exact (ih s1 (acc ++ [r]) rest).1 hx
+    · refine ⟨(by intro h0; cases h0), ?_⟩
+      intro rs' h0 hthr
+      simp only [Out.ok.injEq] at h0
+      subst h0
+      simp only [List.cons_append, Thr, Option.map_some]
+      exact (ih s1 (acc ++ [r]) rest).2 rs hx (by simpa using hthr)
+
+theorem toolLoop_thr (cfg : ToolCfg) (adv : ToolAdv σ ρ κ θ) :
+    ∀ fuel k cur s, Thr cur (toolLoop cfg adv fuel k cur s).evs := by
+  intro fuel
+  induction fuel with
+  | zero => intro k cur s; simp [toolLoop, Thr]
+  | succ fuel ih =>
+    intro k cur s
+    generalize hr : toolLoop cfg adv (fuel + 1) k cur s = run
+    unfold toolLoop at hr
+    split at hr
+    · split at hr
+      · rw [← hr]; simp [Thr]
+      · rename_i s1 resp calls _
+        split at hr
+        · rw [← hr]; simp [Thr]
+        · split at hr
+          · rw [← hr]; simp [Thr]
+          · split at hr <;> rename_i he <;> rw [← hr]
+            · have hx := (execAll_thr adv calls s1 [] []).1
+              rw [he] at hx
+              exact ⟨rfl, hx rfl⟩
+            · rename_i s2 results evs
+              have hx := (execAll_thr adv calls s1 [] (toolLoop cfg adv fuel (k + 1) (some results) s2).evs).2
+              rw [he] at hx
+              exact ⟨rfl, hx results rfl (by simpa using ih _ _ _)⟩
+    · rw [← hr]
+      obtain ⟨out, h1, _⟩ := transcribe_spec adv cur s
+      rw [h1]; simp [Thr]
 
 /-- A provider that asks for tools on every round, with tools and completion that never raise. -/
 structure Insatiable (adv : ToolAdv σ ρ κ θ) : Prop where
